@@ -570,7 +570,7 @@ func (p *parser) skipFmt(offset int) (int, bool) {
 	for i := offset; i < n; i++ {
 		c := p.body[i]
 		if c != '\n' && c != '\r' && c != '\t' && c != ' ' && c != ';' {
-			return i, i == n-1
+			return i, false
 		}
 	}
 	return n - 1, true
